@@ -44,7 +44,7 @@ type creq struct {
 	Active  []bool // filter active (granted, not yet unsubscribed)
 	// Late: an Unsubscribe for this filter completed between this request's SUBACK and its
 	// completion (held back behind an older Subscribe): the library registers the filter afterwards
-	Late []bool
+	Late    []bool
 	SentAt  int
 	RecSent bool
 	// schedule-exploration scenarios: id seen by the peer thread
